@@ -110,4 +110,97 @@ Proof.
     intros s Hin. split; [apply Hd; exact Hin|]. change (a_allocated (get_alloc v1 s) = false). rewrite (D1 s Hin). apply Hd. exact Hin.
 Qed.
 
+
+(* CreatePool that fails: the pool is not linked, the pool ids are as before *)
+Lemma create_pool_fail v ty flags blockSize minB maxB0 minAlign :
+  VamInvU c v [] [] ->
+  let '(v', r) := create_pool c v ty flags blockSize minB maxB0 minAlign in
+  match r with
+  | ER _ => find_pool (v_pools v') (v_next_uid v) = None /\ map p_id (v_pools v') = map p_id (v_pools v) /\
+            v_next_pool_id v' = v_next_pool_id v
+  | _ => True
+  end.
+Proof.
+  intros HI. unfold create_pool.
+  assert (Hfresh0 : find_pool (v_pools v) (v_next_uid v) = None).
+  { apply find_pool_none_fresh. eapply Forall_impl; [|exact (vi_pools_uid _ _ _ _ HI)]. cbn. intros; lia. }
+  assert (Hrefl : find_pool (v_pools v) (v_next_uid v) = None /\ map p_id (v_pools v) = map p_id (v_pools v) /\ v_next_pool_id v = v_next_pool_id v) by auto.
+  destruct (_ <? minB); [exact Hrefl|]. destruct ((ty <? 0) || (ntypes c <=? ty)) eqn:Ety; [exact Hrefl|].
+  destruct (negb (N.testbit _ _)); [exact Hrefl|]. destruct ((0 <? minAlign) && negb (is_pow2_or_zero minAlign)) eqn:Eal; [exact Hrefl|].
+  set (bs := if blockSize =? 0 then preferred_block_size c ty else blockSize).
+  set (al := if type_min_alignment c ty <? minAlign then minAlign else type_min_alignment c ty).
+  set (gr := if Z.testbit flags 0 then 1 else eff_granularity c).
+  set (l := mkBlist ty bs minB (if maxB0 =? 0 then MAXINT else maxB0) gr (negb (blockSize =? 0)) (Z.land flags 2) al [] 0 true).
+  set (uid := v_next_uid v).
+  assert (Hwf : blist_wf c l).
+  { constructor; cbn.
+    9: (unfold gr, eff_granularity; destruct (Z.testbit flags 0); auto).
+    all: try constructor; try lia.
+    - unfold type_valid. apply orb_false_iff in Ety. destruct Ety as (E1 & E2). apply Z.ltb_ge in E1. apply Z.leb_gt in E2.
+      apply andb_true_iff. split; [apply Z.leb_le; lia|apply Z.ltb_lt; lia].
+    - unfold al. pose proof (type_min_alignment_pow2 c Hc ty) as Ht. destruct (type_min_alignment c ty <? minAlign) eqn:E; [|auto].
+      apply Z.ltb_lt in E. pose proof (Bits.pow2_pos _ Ht). apply andb_false_iff in Eal. destruct Eal as [Eal|Eal].
+      + apply Z.ltb_ge in Eal. lia.
+      + apply negb_false_iff in Eal. destruct (pow2_or_zero_spec _ Eal); [lia|auto].
+    - unfold gr. destruct (Z.testbit flags 0); [apply Bits.pow2_1|apply (eff_granularity_pow2 c Hc)].
+    - unfold al. destruct (type_min_alignment c ty <? minAlign) eqn:E; [apply Z.ltb_lt in E|]; unfold type_min_alignment in *; lia. }
+  pose proof (VamInvU_add_pool c v [] [] l HI Hwf eq_refl) as I0. fold uid in I0.
+  set (v0 := mkVam (v_m v) (v_global v) (v_lists v) (v_ded v) (mkPool uid (v_next_pool_id v) l [] :: v_pools v)
+                   (v_next_pool_id v + 1) (uid + 1) (v_tab v)) in *.
+  pose proof (create_min_blocks_inv c Hc (Z.to_nat minB) v0 [] [] (LPool uid) bs I0) as CM.
+  destruct (create_min_blocks c (Z.to_nat minB) v0 (LPool uid) bs) as (v1 & r).
+  destruct CM as (I1 & T1 & L1).
+  assert (T01 : tab_frame v v1 []) by (destruct T1 as (A & B); split; auto).
+  destruct r as [[]|code| |]; auto.
+  (* creation failed: the blocks created so far are released, the pool unlinked, nextPoolId restored *)
+  assert (Hfresh : find_pool (v_pools v) uid = None).
+  { apply find_pool_none_fresh. eapply Forall_impl; [|exact (vi_pools_uid _ _ _ _ HI)]. cbn. intros; lia. }
+  assert (Hu1 : map p_uid (v_pools v1) = uid :: map p_uid (v_pools v)) by (rewrite (lf_uids _ _ L1); reflexivity).
+  assert (Hp1 : map p_id (v_pools v1) = v_next_pool_id v :: map p_id (v_pools v)) by (rewrite (lf_pids _ _ L1); reflexivity).
+  assert (Hrem : map p_id (remove_pool (v_pools v1) uid) = map p_id (v_pools v)).
+  { destruct (v_pools v1) as [|q qs]; cbn in *; [discriminate|]. injection Hu1 as Hq Hu. injection Hp1 as Hq' Hp.
+    rewrite Hq, Z.eqb_refl. exact Hp. }
+  assert (Hids : Forall (fun q => p_id q < v_next_pool_id v) (remove_pool (v_pools v1) uid)).
+  { apply Forall_forall. intros q Hq. assert (In (p_id q) (map p_id (v_pools v))) by (rewrite <- Hrem; apply in_map; auto).
+    apply in_map_iff in H. destruct H as (q0 & E0 & H0). destruct (vi_pools_id _ _ _ _ HI) as (_ & Hf). rewrite Forall_forall in Hf. rewrite <- E0. auto. }
+  pose proof (pool_destroy_inv c v1 uid (v_next_pool_id v) I1 Hids) as PD.
+  (* the new pool is not referenced by any Allocation object, so its destruction cannot be refused *)
+  assert (Hnoref : forall s a, slot_is v1 s a -> a_lref a <> LPool uid).
+  { intros s a S E. assert (S0 : slot_is v s a) by (apply (slot_is_frame _ _ _ _ _ T01) in S; auto).
+    destruct (vi_slots _ _ _ _ HI s a S0 (fun H => H)) as [(_ & l2 & _ & _ & G & _)|(_ & _ & (l2 & G & _) & _)];
+      rewrite E in G; cbn in G; rewrite Hfresh in G; discriminate. }
+  destruct (pool_destroy c v1 uid) as (v2 & dr). destruct dr as [[]|dcode| |]; auto.
+  - destruct PD as (I2 & T2 & F2 & E2). unfold unlink_pool. cbn [v_pools v_next_pool_id]. rewrite (remove_pool_absent _ _ F2).
+    split; [exact F2|]. split; [rewrite E2; exact Hrem|reflexivity].
+  - exfalso. destruct PD as (_ & p1 & Hf1 & [Hd|(b & Hb & He)]).
+    + apply Hd. pose proof (lf_ded _ _ L1 (LPool uid)) as D. cbn in D. rewrite Hf1, Z.eqb_refl in D. exact D.
+    + assert (Hg1 : get_blist v1 (LPool uid) = Some (p_list p1)) by (cbn; rewrite Hf1; reflexivity).
+      rewrite (unreferenced_blocks_empty c v1 (LPool uid) (p_list p1) I1 Hg1 Hnoref b Hb) in He. discriminate.
+Qed.
+
+(* CreatePool that fails (argument check, or the device refusing one of the minimum blocks): every Allocation object
+   is untouched, the pool is not linked (its would-be identity is unknown to the allocator), the pool ids are
+   exactly as before and the invariants hold - the blocks created before the failure were destroyed again, because
+   every device memory object of the state after is owned by a block of a linked list or a dedicated allocation
+   (VamInv: vi_dev_owned) *)
+Theorem failed_create_pool_no_trace v ty flags blockSize minB maxB minAlign f v' code calls :
+  VamInv c v -> step c v (OMkPool ty flags blockSize minB maxB minAlign) f = (v', RErr code, calls) ->
+  VamInv c v' /\ same_slots v v' /\ find_pool (v_pools v') (v_next_uid v) = None /\
+  map p_id (v_pools v') = map p_id (v_pools v) /\ v_next_pool_id v' = v_next_pool_id v.
+Proof.
+  intros HI Hs. unfold step in Hs. cbn [exec] in Hs.
+  set (v0 := set_m v (clear_calls (set_fault (v_m v) f 0))) in *.
+  assert (I0 : VamInv c v0).
+  { unfold v0, VamInv. apply VamInvU_mach_same; [exact HI|]. split; cbn; [apply mems_same_refl|lia]. }
+  pose proof (create_pool_inv c Hc v0 ty flags blockSize minB maxB minAlign I0) as P.
+  pose proof (create_pool_fail v0 ty flags blockSize minB maxB minAlign I0) as Q.
+  destruct (create_pool c v0 ty flags blockSize minB maxB minAlign) as (v1 & r).
+  destruct r as [[]|code1| |]; cbn in Hs; try discriminate. injection Hs as <- _ _.
+  destruct P as (I1 & T1). destruct Q as (Q1 & Q2 & Q3).
+  split; [unfold VamInv; apply VamInvU_mach_same; [exact I1|split; cbn; [apply mems_same_refl|lia]]|].
+  split; [|cbn [v_pools v_next_pool_id set_m]; auto].
+  apply (same_slots_frame v _ []); [|intros s []].
+  eapply tab_frame_trans_same; [apply tab_frame_set_m|]. eapply tab_frame_trans_same; [exact T1|apply tab_frame_set_m].
+Qed.
+
 End WithCfg.
